@@ -133,12 +133,45 @@ Proof.
   apply in_map_iff. exists (Z.to_nat b). split; [lia|]. apply in_seq. lia.
 Qed.
 
+(* the top byte of a 64-bit value, arithmetically *)
+Lemma zland_hi8 v : 0 <= v < 18446744073709551616 -> Z.land v 18374686479671623680 = v / 2 ^ 56 * 2 ^ 56.
+Proof.
+  intro H. change 18374686479671623680 with (Z.shiftl (Z.ones 8) 56).
+  rewrite <- Z.shiftl_mul_pow2, <- Z.shiftr_div_pow2 by lia.
+  apply Z.bits_inj'; intros n Hn. rewrite Z.land_spec.
+  destruct (Z.lt_ge_cases n 56) as [L|G].
+  - rewrite !Z.shiftl_spec_low by lia. apply andb_false_r.
+  - rewrite !Z.shiftl_spec by lia. rewrite Z.shiftr_spec by lia. replace (n - 56 + 56) with n by lia.
+    rewrite Z.testbit_ones by lia.
+    destruct (Z.lt_ge_cases n 64) as [L|G'].
+    + replace ((0 <=? n - 56) && (n - 56 <? 8)) with true by lia. apply andb_true_r.
+    + replace (Z.testbit v n) with false; [reflexivity|]. symmetry.
+      destruct (Z.eq_dec v 0) as [->|]; [apply Z.bits_0|].
+      apply Z.bits_above_log2; [lia|]. apply Z.lt_le_trans with 64; [|exact G']. apply Z.log2_lt_pow2; lia.
+Qed.
+
+(* bit 7 of (x << k) | y with k >= 8 is bit 7 of y *)
+Lemma zland_lor_shl_128 x y k m : 8 <= k -> 0 <= x -> 0 < m ->
+  Z.land (Z.lor ((x * 2 ^ k) mod 2 ^ m) y) 128 = Z.land y 128.
+Proof.
+  intros Hk Hx Hm. rewrite Z.land_lor_distr_l.
+  replace (Z.land ((x * 2 ^ k) mod 2 ^ m) 128) with 0; [reflexivity|]. symmetry.
+  apply Z.bits_inj'; intros n Hn. rewrite Z.land_spec, Z.bits_0.
+  destruct (Z.eq_dec n 7) as [->|N7].
+  - destruct (Z.lt_ge_cases 7 m).
+    + rewrite Z.mod_pow2_bits_low by lia. rewrite Z.mul_pow2_bits_low by lia. reflexivity.
+    + rewrite Z.mod_pow2_bits_high by lia. reflexivity.
+  - replace (Z.testbit 128 n) with false; [apply andb_false_r|]. symmetry.
+    change 128 with (2 ^ 7). apply Z.pow2_bits_false. lia.
+Qed.
+
 (* ---------- the evaluation tactic ---------- *)
 
 Ltac c_unfold :=
   unfold c_cond, c_land, c_lor, c_lnot, c_lt, c_le, c_gt, c_ge, c_eq, c_ne,
     c_add, c_sub, c_mul, c_neg, c_div, c_rem, c_shl, c_shr, c_and, c_or, c_xor, c_not,
-    c_padd, c_psub, c_cast, c_load, c_store, c_cell_read, c_overflow, arith, lift1, lift2, bind;
+    c_padd, c_psub, c_cast, c_load, c_store, c_aload, c_astore, c_anew, c_view, c_unview,
+    c_cell_read, c_overflow, arith, lift1, lift2, bind;
   rewrite ?ity_sub_is_tbl;
   unfold ity_sub_tbl, wrap, in_range, ity_signed, ity_bits, ity_mod, ity_min, ity_max.
 
@@ -153,7 +186,10 @@ Ltac c_norm_idx :=
         (let v := eval vm_compute in (Z.to_nat k) in change (Z.to_nat k) with v)
   end.
 
-Ltac c_simp := cbv beta iota; cbn [fst snd]; rewrite ?b2z_eqb0, ?upd_length; c_norm_idx.
+Lemma aupd_length m k v : length (aupd m k v) = length m.
+Proof. revert k. induction m as [|h t IH]; intros [|k]; cbn [aupd length]; try rewrite IH; reflexivity. Qed.
+
+Ltac c_simp := cbv beta iota; cbn [fst snd]; rewrite ?b2z_eqb0, ?upd_length, ?aupd_length; c_norm_idx; cbn [aupd anth repeat].
 
 (* decide one [if] whose condition is closed under binders:
    - a condition without variables is computed;
